@@ -1,4 +1,10 @@
-(* C19 — strict DER decoding is canonical in both ASN.1 codecs.  Property theorems only. *)
+(* C19 — strict DER decoding is canonical in both ASN.1 codecs.
+   Property theorems only; each is closed by [exact] of a lemma of proof/C19Proofs.v.
+   "Canonical" = whenever the decoder accepts, the same library's encoder applied to the
+   decoded value reproduces the consumed bytes.  Byte strings are [bytes_ok] (every
+   element < 256).  cryptobyte readers / Builder encoders: model/C21.v (shared with C21);
+   encoding/asn1 primitives / marshal.go encoders: model/C19.v ([a_...]).
+   All statements are for unbounded inputs (any content length the decoder accepts). *)
 From Coq Require Import List NArith ZArith Bool Arith.
 From Verif Require Import Harness.
 From VerifModel Require Import C21 C19.
@@ -6,7 +12,141 @@ From VerifProof Require Import C21Proofs C19Proofs.
 Import ListNotations.
 Open Scope N_scope.
 
+(* ---------------- tag / length headers ---------------- *)
+(* cryptobyte readASN1: the element read is exactly what AddASN1 writes for its tag and
+   contents (so the length is in the minimal form, definite, and the tag is low-form) *)
+Theorem C19_cb_header_canonical : forall s tag hl el rest,
+  read_asn1 s = Some (tag, hl, el, rest) -> bytes_ok s ->
+  s = el ++ rest /\ h_asn1 tag (Some (skipn (N.to_nat hl) el)) = Some el.
+Proof. exact cb_header_canonical. Qed.
+Print Assumptions C19_cb_header_canonical.
+
+(* encoding/asn1 parseTagAndLength: the consumed octets are what appendTagAndLength writes
+   for the parsed (class, constructed, tag, length) — minimal tag and length forms only *)
+Theorem C19_asn1_header_canonical : forall s t rest,
+  a_parse_tag_and_length s = Some (t, rest) -> bytes_ok s ->
+  s = a_tag_and_length_bytes t ++ rest.
+Proof. exact a_header_canonical. Qed.
+Print Assumptions C19_asn1_header_canonical.
+
+Theorem C19_indefinite_length_rejected : forall tag s,
+  read_asn1 (tag :: 128 :: s) = None /\
+  (tag mod 32 <> 31 -> a_parse_tag_and_length (tag :: 128 :: s) = None).
+Proof. exact indefinite_rejected. Qed.
+Print Assumptions C19_indefinite_length_rejected.
+
+(* ---------------- INTEGER ---------------- *)
+(* arbitrary precision (parseBigInt / readASN1BigInt decode identically, makeBigInt /
+   AddASN1BigInt encode identically) *)
+Theorem C19_bigint_canonical : forall c,
+  bytes_ok c -> check_asn1_integer c = true -> bigint_content (bigint_of_bytes c) = c.
+Proof. exact bigint_canonical. Qed.
+Print Assumptions C19_bigint_canonical.
+
+Theorem C19_cb_int64_canonical : forall c z,
+  bytes_ok c -> check_asn1_integer c = true -> asn1_signed c = Some z -> int64_content z = c.
+Proof. exact cb_int64_canonical. Qed.
+Print Assumptions C19_cb_int64_canonical.
+
+Theorem C19_cb_uint64_canonical : forall c n,
+  bytes_ok c -> check_asn1_integer c = true -> asn1_unsigned c = Some n -> uint64_content n = c.
+Proof. exact cb_uint64_canonical. Qed.
+Print Assumptions C19_cb_uint64_canonical.
+
+Theorem C19_asn1_int64_canonical : forall c z,
+  bytes_ok c -> a_parse_int64 c = Some z -> a_int64_bytes z = c.
+Proof. exact a_int64_canonical. Qed.
+Print Assumptions C19_asn1_int64_canonical.
+
+Theorem C19_asn1_int32_canonical : forall c z,
+  bytes_ok c -> a_parse_int32 c = Some z -> a_int64_bytes z = c /\ fits_signed 32 z = true.
+Proof. exact a_int32_canonical. Qed.
+Print Assumptions C19_asn1_int32_canonical.
+
+Theorem C19_asn1_bigint_canonical : forall c z,
+  bytes_ok c -> a_parse_bigint c = Some z -> bigint_content z = c.
+Proof. exact a_bigint_canonical. Qed.
+Print Assumptions C19_asn1_bigint_canonical.
+
+Theorem C19_nonminimal_integer_rejected : forall b0 b1 l,
+  (b0 = 0 /\ b1 < 128) \/ (b0 = 255 /\ 128 <= b1) ->
+  check_asn1_integer (b0 :: b1 :: l) = false /\ a_parse_int64 (b0 :: b1 :: l) = None /\
+  a_parse_int32 (b0 :: b1 :: l) = None /\ a_parse_bigint (b0 :: b1 :: l) = None.
+Proof. exact nonminimal_integer_rejected. Qed.
+Print Assumptions C19_nonminimal_integer_rejected.
+
+(* ---------------- BOOLEAN ---------------- *)
 Theorem C19_asn1_bool_canonical : forall bs b,
   a_parse_bool bs = Some b -> bs = [if b then 255 else 0].
 Proof. exact a_bool_canonical. Qed.
 Print Assumptions C19_asn1_bool_canonical.
+
+Theorem C19_cb_bool_canonical : forall s b rest,
+  read_bool s = Some (b, rest) -> bytes_ok s ->
+  exists c, read_asn1_tag 1 s = Some (c, rest) /\ c = [if b then 255 else 0].
+Proof. exact cb_bool_canonical. Qed.
+Print Assumptions C19_cb_bool_canonical.
+
+(* ---------------- BIT STRING ---------------- *)
+Theorem C19_asn1_bitstring_canonical : forall bs d n,
+  a_parse_bitstring bs = Some (d, n) -> a_bitstring_bytes d n = bs.
+Proof. exact a_bitstring_canonical. Qed.
+Print Assumptions C19_asn1_bitstring_canonical.
+
+Theorem C19_cb_bitstring_canonical : forall c d n,
+  bitstring_of_content c = Some (d, n) -> a_bitstring_bytes d n = c.
+Proof. exact cb_bitstring_canonical. Qed.
+Print Assumptions C19_cb_bitstring_canonical.
+
+Theorem C19_padding_bits_rejected : forall pad data,
+  data <> [] -> last data 0 mod 2 ^ pad <> 0 ->
+  a_parse_bitstring (pad :: data) = None /\ bitstring_of_content (pad :: data) = None.
+Proof. exact padding_bits_rejected. Qed.
+Print Assumptions C19_padding_bits_rejected.
+
+(* ---------------- OBJECT IDENTIFIER ---------------- *)
+Theorem C19_cb_oid_canonical : forall c arcs,
+  oid_of_content c = Some arcs -> bytes_ok c -> oid_content arcs = Some c.
+Proof. exact cb_oid_canonical. Qed.
+Print Assumptions C19_cb_oid_canonical.
+
+Theorem C19_asn1_oid_canonical : forall bs arcs,
+  a_parse_oid bs = Some arcs -> bytes_ok bs -> a_oid_bytes arcs = Some bs.
+Proof. exact a_oid_canonical. Qed.
+Print Assumptions C19_asn1_oid_canonical.
+
+Theorem C19_leading_0x80_subidentifier_rejected : forall s,
+  read_base128 (128 :: s) = None /\ a_base128 (128 :: s) = None.
+Proof. exact leading_0x80_rejected. Qed.
+Print Assumptions C19_leading_0x80_subidentifier_rejected.
+
+(* witness of the defect repaired by commit e03288a: readBase128Int without the leading-0x80
+   test reads 80 01 as 1, whose encoding is 01 (so 06 03 2a 80 01 was read as 1.2.1) *)
+Theorem C19_old_cb_base128_refuted :
+  old_base128_from 0 0 [128; 1] = Some (1, []) /\ b128_form 1 = [1] /\
+  read_base128 [128; 1] = None /\ oid_of_content [42; 128; 1] = None /\
+  oid_of_content [42; 1] = Some [1; 2; 1]%Z.
+Proof. exact old_base128_refuted. Qed.
+Print Assumptions C19_old_cb_base128_refuted.
+
+(* ---------------- GeneralizedTime (cryptobyte) ---------------- *)
+Theorem C19_cb_gentime_canonical : forall c t,
+  gtime_of_content c = Some t -> gentime_content t = c /\ gentime_year_ok t = true.
+Proof. exact cb_gentime_canonical. Qed.
+Print Assumptions C19_cb_gentime_canonical.
+
+(* the decoders accept something: long-form length, high tag number, negative integer,
+   multi-octet sub-identifiers, padded BIT STRING, GeneralizedTime with a zone offset *)
+Theorem C19_nonvacuous :
+  read_asn1 [48; 129; 128] = None /\
+  (exists el, read_asn1 ([48; 129; 128] ++ nrep 7 128 ++ [9]) = Some (48, 3, el, [9])) /\
+  a_parse_tag_and_length [191; 129; 0; 130; 1; 0; 7] =
+    Some ({| t_class := 2; t_compound := true; t_tag := 128; t_length := 256 |}, [7]) /\
+  a_parse_int64 [255; 127] = Some (-129)%Z /\ asn1_signed [255; 127] = Some (-129)%Z /\
+  a_parse_oid [42; 134; 72; 134; 247; 13] = Some [1; 2; 840; 113549]%Z /\
+  oid_of_content [42; 134; 72; 134; 247; 13] = Some [1; 2; 840; 113549]%Z /\
+  a_parse_bitstring [3; 168] = Some ([168], 5%Z) /\ bitstring_of_content [3; 168] = Some ([168], 5%Z) /\
+  gtime_of_content [50;48;50;48;48;50;50;57;49;50;51;52;53;54;43;48;49;51;48] =
+    Some {| gY := 2020; gMo := 2; gD := 29; gh := 12; gmi := 34; gs := 56; goff := 90 |}.
+Proof. exact c19_nonvacuous. Qed.
+Print Assumptions C19_nonvacuous.
